@@ -78,6 +78,9 @@ type CGCliStep struct {
 	// UseDefault: no -d is given: the command reads coca_reporter/deps.json, which holds model 0
 	// since before the first command (only drawn for steps on model 0)
 	UseDefault bool `json:"use_default,omitempty"`
+	// ViaLink: the model file is named through a symbolic link and "..": -d link/../viaK.json with
+	// link -> sub/deeper, which the kernel resolves to sub/viaK.json (a lexically cleaned path would not)
+	ViaLink bool `json:"via_link,omitempty"`
 }
 
 type CGScenario struct {
@@ -126,9 +129,30 @@ func genCollisionModel(t *tape.Tape) []MClass {
 	return model
 }
 
+// genScaleModel is a model of more than a thousand classes (size thresholds): a long chain of
+// one-method classes with a few drawn extra calls.
+func genScaleModel(t *tape.Tape) []MClass {
+	n := t.Int(1001, 1150)
+	model := make([]MClass, n)
+	for i := 0; i < n; i++ {
+		model[i] = MClass{NodeName: fmt.Sprintf("K%04d", i), Package: "big", Type: "Class", Functions: []MFunc{{Name: "m0"}}}
+	}
+	for i := 0; i+1 < n; i++ {
+		model[i].Functions[0].FunctionCalls = append(model[i].Functions[0].FunctionCalls, MCall{"big", fmt.Sprintf("K%04d", i+1), "m0"})
+	}
+	for k := 0; k < 6; k++ {
+		a, b := t.Pick(n), t.Pick(n)
+		model[a].Functions[0].FunctionCalls = append(model[a].Functions[0].FunctionCalls, MCall{"big", fmt.Sprintf("K%04d", b), "m0"})
+	}
+	return model
+}
+
 func genModel(t *tape.Tape, thorough bool) []MClass {
 	if t.Bool(1, 16) {
 		return genCollisionModel(t)
+	}
+	if t.Bool(1, 150) {
+		return genScaleModel(t)
 	}
 	pkgs := []string{"p", "q.r", "com.x"}
 	if t.Bool(1, 4) {
@@ -174,7 +198,7 @@ func genModel(t *tape.Tape, thorough bool) []MClass {
 			}
 			if t.Bool(1, 25) {
 				// names that are keywords elsewhere are ordinary method names in a model
-				name = []string{"new", "super", "this", "default", "init", "x", "r", "com", "p", "a->b", "m1", "m10"}[t.Pick(12)] // keywords elsewhere; or equal to a package segment
+				name = []string{"new", "super", "this", "default", "init", "x", "r", "com", "p", "a->b", "m1", "m10", "a\\b", "t\tab", "nb\u00a0sp"}[t.Pick(15)] // keywords elsewhere; or equal to a package segment
 				for _, f := range c.Functions {
 					if f.Name == name {
 						name = fmt.Sprintf("m%d", j)
@@ -325,6 +349,9 @@ func genCGScenario(t *tape.Tape, tier string) *CGScenario {
 			default:
 				op.Kind = "callByFiles"
 				na := t.Int(0, 6)
+				if t.Bool(1, 25) {
+					na = t.Int(32, 44) // many endpoints in one analysis
+				}
 				verbs := []string{"GET", "POST", "PUT", "DELETE"}
 				for a := 0; a < na; a++ {
 					c := model[t.Pick(len(model))]
@@ -370,6 +397,9 @@ func genCGScenario(t *tape.Tape, tier string) *CGScenario {
 				}
 				if mi == 0 && t.Bool(1, 2) {
 					st.UseDefault = true
+					st.Sparse = false
+				} else if t.Bool(1, 4) {
+					st.ViaLink = true
 					st.Sparse = false
 				}
 				steps = append(steps, st)
@@ -859,6 +889,14 @@ func runCG(id string, ctx *sim.RunCtx, data json.RawMessage) (*sim.Outcome, erro
 				return nil, sim.Harness("%v", err)
 			}
 		}
+		// model files reachable only through a symbolic link and ".."
+		os.MkdirAll(filepath.Join(cwd, "sub", "deeper"), 0755)
+		os.Symlink(filepath.Join("sub", "deeper"), filepath.Join(cwd, "link"))
+		for i, m := range sc.Models {
+			if err := writeJSON(filepath.Join(cwd, "sub", fmt.Sprintf("via%d.json", i)), m); err != nil {
+				return nil, sim.Harness("%v", err)
+			}
+		}
 		// the default dependence file exists before any command runs (as after `coca analysis`)
 		os.MkdirAll(filepath.Join(cwd, "coca_reporter"), 0755)
 		if err := writeJSON(filepath.Join(cwd, "coca_reporter", "deps.json"), sc.Models[0]); err != nil {
@@ -875,6 +913,10 @@ func runCG(id string, ctx *sim.RunCtx, data json.RawMessage) (*sim.Outcome, erro
 				file := fmt.Sprintf("full%d.json", s.Model)
 				if s.Sparse && s.Cmd == "call" {
 					file = fmt.Sprintf("sparse%d.json", s.Model)
+				}
+				if s.ViaLink {
+					file = fmt.Sprintf("link/../via%d.json", s.Model)
+					out.Faults["path-through-symlink-and-dotdot"]++
 				}
 				hist = append(hist, "cli-"+s.Cmd)
 				if s.Cmd == "call" {
